@@ -64,7 +64,8 @@ def install():
     identity = [GroundedEffect, NumericalExpressionTree, ConditionalEffect, UniversalEffect]
     string = [Predicate, GroundedPredicate, Precondition, UniversalPrecondition]
     for cls in identity:
-        assert "__hash__" not in cls.__dict__ or cls.__dict__["__hash__"] is _id_hash, cls
+        if not ("__hash__" not in cls.__dict__ or cls.__dict__["__hash__"] is _id_hash):
+            raise RuntimeError(f"hash seam: {cls} defines its own __hash__")
         cls.__hash__ = _id_hash
     for cls in string:
         cls.__hash__ = _str_hash
